@@ -35,6 +35,7 @@ import (
 	"github.com/enbility/spine-go/api"
 	"github.com/enbility/spine-go/model"
 	"github.com/enbility/spine-go/spine"
+	"github.com/enbility/spine-go/util"
 	"verifharness/h"
 )
 
@@ -811,6 +812,40 @@ func wirUsesDelete(sh string) bool { return sh == "delSel" || sh == "delEl" || s
 // values a command is built from, generated per (function, shape) from the op's own seed
 type wirArgs struct {
 	data, empty, sel, sel2, el any // pointers; nil where the data model defines none
+	// how an ABSENT selectors / elements argument is passed, per argument position (bit i = position
+	// i): 0 the untyped nil, 1 a nil pointer of the function's selectors / elements type — what a
+	// wrapper forwarding typed arguments hands over. Both mean "none" (util.IsNil).
+	nilMask   int
+	selT, elT reflect.Type
+}
+
+// absent: the "no selectors" (isSel) / "no elements" argument for position pos
+func (a wirArgs) absent(pos int, isSel bool) any {
+	t := a.elT
+	if isSel {
+		t = a.selT
+	}
+	if a.nilMask>>uint(pos)&1 == 1 && t != nil {
+		return reflect.Zero(reflect.PointerTo(t)).Interface() // typed nil inside the interface
+	}
+	return nil
+}
+
+// wirNilPositions: number of selectors/elements argument positions the shape leaves absent
+func wirNilPositions(sh string) int {
+	switch sh {
+	case "read":
+		return 2
+	case "readSel", "readEl":
+		return 1
+	case "full", "part":
+		return 3
+	case "partSel", "delSel", "delEl":
+		return 2
+	case "delSelPartSel":
+		return 1
+	}
+	return 0
 }
 
 func wirNonZero(t reflect.Type, rng *rand.Rand, avoid any) any {
@@ -830,7 +865,7 @@ func wirNonZero(t reflect.Type, rng *rand.Rand, avoid any) any {
 }
 
 func wirMakeArgs(f *wirFn, rng *rand.Rand) wirArgs {
-	a := wirArgs{empty: reflect.New(f.payload).Interface()}
+	a := wirArgs{empty: reflect.New(f.payload).Interface(), selT: f.selT, elT: f.elT}
 	a.data = wirNonZero(f.payload, rng, nil)
 	if f.selT != nil {
 		a.sel = wirNonZero(f.selT, rng, nil)
@@ -851,13 +886,14 @@ func wirOpt(use bool, v any) any {
 
 // wirBuild calls the real API.
 func wirBuild(fd api.FunctionDataCmdInterface, sh string, a wirArgs) model.CmdType {
+	// ReadCmdType(partialSelector 0, elements 1); NotifyOrWriteCmdType(deleteSelector 0, partialSelector 1, _, deleteElements 2)
 	switch sh {
 	case "read":
-		return fd.ReadCmdType(nil, nil)
+		return fd.ReadCmdType(a.absent(0, true), a.absent(1, false))
 	case "readSel":
-		return fd.ReadCmdType(a.sel, nil)
+		return fd.ReadCmdType(a.sel, a.absent(1, false))
 	case "readEl":
-		return fd.ReadCmdType(nil, a.el)
+		return fd.ReadCmdType(a.absent(0, true), a.el)
 	case "readSelEl":
 		return fd.ReadCmdType(a.sel, a.el)
 	case "reply":
@@ -865,17 +901,17 @@ func wirBuild(fd api.FunctionDataCmdInterface, sh string, a wirArgs) model.CmdTy
 	case "replyPartial":
 		return fd.ReplyCmdType(true)
 	case "full":
-		return fd.NotifyOrWriteCmdType(nil, nil, false, nil)
+		return fd.NotifyOrWriteCmdType(a.absent(0, true), a.absent(1, true), false, a.absent(2, false))
 	case "part":
-		return fd.NotifyOrWriteCmdType(nil, nil, true, nil)
+		return fd.NotifyOrWriteCmdType(a.absent(0, true), a.absent(1, true), true, a.absent(2, false))
 	case "partSel":
-		return fd.NotifyOrWriteCmdType(nil, a.sel, false, nil)
+		return fd.NotifyOrWriteCmdType(a.absent(0, true), a.sel, false, a.absent(2, false))
 	case "delSel":
-		return fd.NotifyOrWriteCmdType(a.sel, nil, false, nil)
+		return fd.NotifyOrWriteCmdType(a.sel, a.absent(1, true), false, a.absent(2, false))
 	case "delEl":
-		return fd.NotifyOrWriteCmdType(nil, nil, false, a.el)
+		return fd.NotifyOrWriteCmdType(a.absent(0, true), a.absent(1, true), false, a.el)
 	case "delSelPartSel":
-		return fd.NotifyOrWriteCmdType(a.sel, a.sel2, false, nil)
+		return fd.NotifyOrWriteCmdType(a.sel, a.sel2, false, a.absent(2, false))
 	}
 	panic("bad shape " + sh)
 }
@@ -1026,14 +1062,33 @@ func wirCmdOp(r *h.Report, fns map[string]*wirFn, op string) (impl string, kind 
 	if (wirUsesSel(sh) && f.selT == nil) || (wirUsesEl(sh) && f.elT == nil) {
 		return "n/a", "n/a"
 	}
+	mask := 0
+	if len(fl) > 4 {
+		mask, _ = strconv.Atoi(fl[4])
+	}
 	now := time.Now()
 	given := wirMakeArgs(f, rand.New(rand.NewSource(seed))) // handed to the API
 	a := wirMakeArgs(f, rand.New(rand.NewSource(seed)))     // the same values, never seen by the API
+	given.nilMask = mask
 	fd := wirNewFD(f)
 	if _, e := fd.UpdateDataAny(false, true, given.data, nil, nil); e != nil {
 		return "cannot-set-data", "error"
 	}
-	impl, kind, _, _ = wirCmdEval(r, f, sh, fd, given, a, []string{op}, now)
+	var cmd model.CmdType
+	var pan any
+	impl, kind, cmd, pan = wirCmdEval(r, f, sh, fd, given, a, []string{op}, now)
+	if mask != 0 {
+		// the same call with every absent argument as the untyped nil must build the same command
+		g0 := wirMakeArgs(f, rand.New(rand.NewSource(seed)))
+		fd0 := wirNewFD(f)
+		fd0.UpdateDataAny(false, true, g0.data, nil, nil)
+		var c0 model.CmdType
+		p0 := h.Recover(func() { c0 = wirBuild(fd0, sh, g0) })
+		if !wirSameBuild(cmd, pan, c0, p0) {
+			r.SpecFail("C18/nil-forms-disagree:"+sh, []string{op}, fmt.Sprintf("%s %s: with absent selectors/elements passed as nil pointers of their type (positions %03b) the API builds %s, with the untyped nil %s", f.name, sh, mask, wirCmdText(cmd, pan), wirCmdText(c0, p0)))
+		}
+		kind = "typed-nil:" + kind
+	}
 	return impl, kind
 }
 
@@ -1136,6 +1191,11 @@ func wirCmdJudge(r *h.Report, f *wirFn, sh string, cmd model.CmdType, a wirArgs,
 			if want == nil && gotNil {
 				return
 			}
+			if want == nil {
+				// nothing was put in, something comes out
+				r.SpecFail("C18/filter-invented:"+what, ops, fmt.Sprintf("%s %s: no %s were given, the %s filter comes back with %s (%T); json %s", f.name, sh, what, which, g, got, text))
+				return
+			}
 			if (want == nil) != gotNil || reflect.TypeOf(got) != reflect.TypeOf(want) {
 				// dropped, invented or of another type: the tag row of the function
 				r.SpecFail("C18/"+key, ops, fmt.Sprintf("%s %s: %s %s put into the %s filter came back as %s (%T); json %s", f.name, sh, what, w, which, g, got, text))
@@ -1178,7 +1238,7 @@ func wirCmdJudge(r *h.Report, f *wirFn, sh string, cmd model.CmdType, a wirArgs,
 // A history is a list of ops on ONE long-lived instance:
 //   inst <function>        create the instance (no data stored yet)
 //   set <seed>             store new data (UpdateDataAny, full, persist)
-//   call <shape> <seed>    build a command; it is (i) judged like any other command (model + SPEC),
+//   call <shape> <seed> [m] build a command (m: which absent arguments are typed nil pointers); it is (i) judged like any other command (model + SPEC),
 //                          (ii) built a second time in a row with equal arguments — must be equal,
 //                          (iii) built on a FRESH instance holding the same data — must be equal,
 //                          (iv) and the command returned by the PREVIOUS call must still be what it was.
@@ -1234,15 +1294,20 @@ func wirSeq(r *h.Report, d *h.Driver, fns map[string]*wirFn, ops []string) bool 
 				panic("cannot set data: " + e.String())
 			}
 			r.Eval("seq:set", "")
-		case len(fl) == 3 && fl[0] == "call":
+		case (len(fl) == 3 || len(fl) == 4) && fl[0] == "call":
 			sh := fl[1]
 			seed, _ := strconv.ParseInt(fl[2], 10, 64)
+			mask := 0
+			if len(fl) == 4 {
+				mask, _ = strconv.Atoi(fl[3])
+			}
 			if (wirUsesSel(sh) && f.selT == nil) || (wirUsesEl(sh) && f.elT == nil) {
 				r.Eval("seq:n/a", "")
 				continue
 			}
 			mk := func() wirArgs {
 				a := wirMakeArgs(f, rand.New(rand.NewSource(seed)))
+				a.nilMask = mask
 				if dt := mkData(); dt != nil {
 					a.data = dt
 				} else {
@@ -1315,10 +1380,38 @@ func wirGenSeq(f *wirFn, rng *rand.Rand, n int) []string {
 		case x < 30:
 			ops = append(ops, fmt.Sprintf("call read %d", rng.Int63n(1<<40))) // plain reads often: after anything
 		default:
-			ops = append(ops, fmt.Sprintf("call %s %d", wirShapes[rng.Intn(len(wirShapes))], rng.Int63n(1<<40)))
+			sh := wirShapes[rng.Intn(len(wirShapes))]
+			if np := wirNilPositions(sh); np > 0 && rng.Intn(2) == 0 {
+				ops = append(ops, fmt.Sprintf("call %s %d %d", sh, rng.Int63n(1<<40), 1+rng.Intn(1<<uint(np)-1)))
+			} else {
+				ops = append(ops, fmt.Sprintf("call %s %d", sh, rng.Int63n(1<<40)))
+			}
 		}
 	}
 	return ops
+}
+
+// wirIsNilTable: util.IsNil, the glue that decides "no selectors / no elements", on every form of nil.
+func wirIsNilTable(r *h.Report) {
+	var np *model.LoadControlLimitListDataSelectorsType
+	var ns []int
+	var nm map[string]int
+	v := model.LoadControlLimitListDataSelectorsType{}
+	for _, c := range []struct {
+		name string
+		x    any
+		want bool
+	}{
+		{"untyped-nil", nil, true}, {"typed-nil-pointer", np, true}, {"nil-slice", ns, true}, {"nil-map", nm, true},
+		{"pointer", &v, false}, {"pointer-to-nil-pointer", &np, false}, {"struct", v, false}, {"empty-slice", []int{}, false}, {"number", 0, false},
+	} {
+		got, p := false, h.Recover(func() {})
+		p = h.Recover(func() { got = util.IsNil(c.x) })
+		r.Eval("isnil", "")
+		if p != nil || got != c.want {
+			r.SpecFail("C18/isnil:"+c.name, []string{"isnil " + c.name}, fmt.Sprintf("util.IsNil(%s) = %v (panic %v), must be %v: absent selectors/elements would be treated as present (or the reverse)", c.name, got, p, c.want))
+		}
+	}
 }
 
 // wirConc: two goroutines build commands on one instance at the same time; every result must be what a
@@ -1382,7 +1475,7 @@ func wirConc(r *h.Report, fns map[string]*wirFn, op string) {
 }
 
 func TestWireCmd(t *testing.T) {
-	r := h.NewReport("wirecmd", "every function the factory registers for any feature type x 12 command shapes (the nine of the property, read+selector+elements, partial reply, delete+partial selectors), built with the real ReadCmdType/ReplyCmdType/NotifyOrWriteCmdType from reflectively generated data, selectors and elements, json.Marshal, json.Unmarshal, recognised with the real CmdType.Data/ExtractFilter/FilterType.Data; exhaustive over functions x shapes, several value seeds each; compared with the prediction of the Lean table model Spine.Cmd; BUILDER PURITY: per function one long-lived function-data instance driven through a seeded history of builder calls over all shapes with data stored and replaced in between (and nothing stored at first) - every command is judged as above (the model is stateless: a build is a function of function, data and arguments), built twice in a row (idempotence) and compared by reflect.DeepEqual with what a fresh instance holding the same data builds (purity), and the command returned by the previous call must be unchanged after the next call (no aliasing of returned commands); plus two goroutines building on one instance at the same time; non-trivial = distinct (function, shape, outcome) and distinct histories")
+	r := h.NewReport("wirecmd", "every function the factory registers for any feature type x 12 command shapes (the nine of the property, read+selector+elements, partial reply, delete+partial selectors), built with the real ReadCmdType/ReplyCmdType/NotifyOrWriteCmdType from reflectively generated data, selectors and elements, json.Marshal, json.Unmarshal, recognised with the real CmdType.Data/ExtractFilter/FilterType.Data; exhaustive over functions x shapes, several value seeds each, and over every way of passing the ABSENT selectors/elements arguments (untyped nil, or a nil pointer of the function's selectors/elements type, per argument position - both mean none; the command must equal the one built with untyped nils); util.IsNil on every form of nil; compared with the prediction of the Lean table model Spine.Cmd; BUILDER PURITY: per function one long-lived function-data instance driven through a seeded history of builder calls over all shapes with data stored and replaced in between (and nothing stored at first) - every command is judged as above (the model is stateless: a build is a function of function, data and arguments), built twice in a row (idempotence) and compared by reflect.DeepEqual with what a fresh instance holding the same data builds (purity), and the command returned by the previous call must be unchanged after the next call (no aliasing of returned commands); plus two goroutines building on one instance at the same time; non-trivial = distinct (function, shape, outcome) and distinct histories")
 	defer r.Write()
 	completed := wirGuard(r)
 	d := h.StartDriver("drv_cmd")
@@ -1396,7 +1489,7 @@ func TestWireCmd(t *testing.T) {
 	}
 	run := func(op string) {
 		fl := strings.Fields(op)
-		if len(fl) != 4 || fl[0] != "cmd" {
+		if (len(fl) != 4 && len(fl) != 5) || fl[0] != "cmd" {
 			panic("bad op " + op)
 		}
 		impl, kind := wirCmdOp(r, byName, op)
@@ -1454,6 +1547,8 @@ func TestWireCmd(t *testing.T) {
 			for _, op := range ops {
 				if strings.HasPrefix(op, "conc ") {
 					wirConc(r, byName, op)
+				} else if strings.HasPrefix(op, "isnil") {
+					wirIsNilTable(r)
 				} else {
 					run(op)
 				}
@@ -1477,6 +1572,14 @@ func TestWireCmd(t *testing.T) {
 			run(fmt.Sprintf("cmd %s %s 1", w[0], w[1]))
 		}
 	}
+	// corpus: absent arguments as nil pointers of their concrete type (what forwarding wrappers pass)
+	for _, w := range [][3]string{{"loadControlLimitListData", "read", "3"}, {"loadControlLimitListData", "full", "7"}, {"loadControlLimitListData", "readSel", "1"},
+		{"deviceDiagnosisHeartbeatData", "read", "2"}, {"measurementListData", "partSel", "3"}} {
+		if byName[w[0]] != nil {
+			run(fmt.Sprintf("cmd %s %s 1 %s", w[0], w[1], w[2]))
+		}
+	}
+	wirIsNilTable(r)
 	// exhaustive: all functions x all shapes, several value seeds
 	rng := h.Rng(1801)
 	seeds := h.Scale(3, 40)
@@ -1485,6 +1588,13 @@ func TestWireCmd(t *testing.T) {
 		for _, sh := range wirShapes {
 			for k := 0; k < seeds; k++ {
 				run(fmt.Sprintf("cmd %s %s %d", f.name, sh, rng.Int63n(1<<40)))
+			}
+			// every way of passing the absent selectors / elements arguments: untyped nil (above) or a nil
+			// pointer of the function's selectors / elements type, per argument position
+			for mask := 1; mask < 1<<uint(wirNilPositions(sh)); mask++ {
+				for k := 0; k < h.Scale(1, 4); k++ {
+					run(fmt.Sprintf("cmd %s %s %d %d", f.name, sh, rng.Int63n(1<<40), mask))
+				}
 			}
 			if !((wirUsesSel(sh) && f.selT == nil) || (wirUsesEl(sh) && f.elT == nil)) {
 				applicable++
